@@ -120,6 +120,22 @@ let run_call c record =
     | Exit -> Exit | OOB -> OOB | Fuel -> Fuel
   end
 
+(* a use of the sampling facility by the caller, between integrations: su <seed> <k> a_1 b_1 ... a_k b_k (Sample_Uniform with limits),
+   sg <seed> <k> <mean> <sd> (Sample_Gauss), rs <seed> <k> <xmin> <xmax> (Rejection_Sampling).  The model of the first is the event E_draws
+   (run_event: the statics are handed back as they are, and the draws); the other two are built on Sample_Uniform draws whose number depends on the
+   data, their values are not compared here (the samplers are the subject of C18): no statics of the integrators are involved in the model. *)
+type ev = Ev_call of call | Ev_draws of int * (float * float) list | Ev_other
+let is_draws w = (w = "su" || w = "sg" || w = "rs")
+let read_ranges r k = List.init k (fun _ -> let a = num r in let b = num r in (a, b))
+let read_draws ?kind r =
+  let kind = match kind with Some k -> k | None -> word r in
+  let seed = integer r in let k = integer r in
+  if kind = "su" then Ev_draws (seed, read_ranges r k) else (ignore (read_ranges r 1); Ev_other)
+let model_draws seed ranges =
+  match run_event fops !state (E_draws (us_of_seed seed, ranges)) with
+  | Ok (s, vals) -> state := s; vals
+  | _ -> failwith "model: run_event of draws"
+
 let put_res = function
   | Ok v -> put_f v; true
   | Exit -> put_w "EXIT"; false
@@ -140,22 +156,33 @@ let handler r =
       let seed = integer r in let k = integer r in
       let g = mt_uniforms seed in
       put_fl (List.init k g)
-  | "mc" ->
+  | "draws" ->
+      (match read_draws ~kind:"su" r with
+       | Ev_draws (seed, ranges) -> put_fl (model_draws seed ranges)
+       | _ -> put_w "MODELERR draws")
+  | ("mc" | "mcd") as op ->
+      (* mcd: the integrand makes draws of its own at every evaluation; in the model they leave nothing behind *)
+      (if op = "mcd" then ignore (read_ranges r (integer r)));
       let c = read_call r in
       if put_res_opt (run_call c true) then begin put_rec (List.length c.region / 2); put_i 0; put_i 0 end
   | "hist" ->
       let nh = integer r in
-      let hs = List.init nh (fun _ -> read_call r) in
+      let hs = List.init nh (fun _ -> if more r && is_draws r.toks.(r.pos) then read_draws r else Ev_call (read_call r)) in
       let c = read_call r in
       (* the fresh process is the model started from vstate0 *)
       (match run_call c false with
        | Ok (Some a) ->
-           let nab = ref 0 in
+           let nab = ref 0 and nout = ref 0 in
            let rec go = function
              | [] -> ""
-             | h :: t -> (match run_call h false with Ok v -> (if v = None then incr nab); go t | Exit -> "EXIT" | OOB -> "OOB" | Fuel -> "FUEL") in
+             | Ev_call h :: t -> (match run_call h false with Ok v -> (if v = None then incr nab); go t | Exit -> "EXIT" | OOB -> "OOB" | Fuel -> "FUEL")
+             | Ev_draws (seed, ranges) :: t ->
+                 List.iter2 (fun (lo, hi) v -> if not (lo <= v && v <= hi) then incr nout) ranges (model_draws seed ranges); go t
+             | Ev_other :: t -> go t in
            (match go hs with
-            | "" -> (match run_call c false with Ok (Some b) -> put_f a; put_f a; put_f b; put_i !nab; put_i 0 | _ -> put_w "MODELERR observed_call_failed")
+            | "" -> (match run_call c true with
+                     | Ok (Some b) -> put_f a; put_f a; put_f b; put_i !nab; put_i 0; put_i !nout; put_rec (List.length c.region / 2)
+                     | _ -> put_w "MODELERR observed_call_failed")
             | w -> put_w w)
        | Ok None -> put_w "MODELERR observed_call_throws"
        | Exit -> put_w "EXIT" | OOB -> put_w "OOB" | Fuel -> put_w "FUEL")
